@@ -1,0 +1,68 @@
+//go:build verif
+
+// Contracts for package pointindex, read by the verification-condition generator in /verif (gvc).
+// This file contains comments only; it is compiled only with the build tag "verif" and adds no code.
+package pointindex
+
+// ---------------------------------------------------------------------------------------------
+// Well-formed index: what FromTileMatrixSet establishes and every method preserves.
+// Magnitudes: ordinates are int64 with 10 decimals; |min| <= 2^60 and the grid span <= 2^60 keep every
+// intermediate inside int64 (WebMercator: 2e7 m * 1e10 = 2^57.5).
+//
+//@ macro gridSpan(ix) = pow2(ix.deepestLevel) * ix.deepestRes
+//@ macro wfIndex(ix) = ix.deepestLevel <= 32 && ix.deepestSize == pow2(ix.deepestLevel) && ix.deepestRes > 0
+//@     && 0 - 1152921504606846976 <= ix.intExtent[0] && ix.intExtent[0] <= 1152921504606846976
+//@     && 0 - 1152921504606846976 <= ix.intExtent[1] && ix.intExtent[1] <= 1152921504606846976
+//@     && gridSpan(ix) <= 1152921504606846976
+//@     && !isNil(ix.quadrants)
+//@ macro inGrid(ix, px, py) = ix.intExtent[0] <= px && px < ix.intExtent[0] + gridSpan(ix)
+//@     && ix.intExtent[1] <= py && py < ix.intExtent[1] + gridSpan(ix)
+//@ macro pixSpan(ix, level) = pow2(ix.deepestLevel - level) * ix.deepestRes
+
+//@ func containsPoint
+//@   ensures[C02,C09] result == (intExtent[0] <= intPt[0] && intPt[0] < intExtent[2] && intExtent[1] <= intPt[1] && intPt[1] < intExtent[3])
+
+//@ func (*PointIndex).getQuadrantExtentAndCentroid
+//@   prelude arith
+//@   requires wfIndex(ix) && level <= ix.deepestLevel && x < pow2(level) && y < pow2(level)
+//@   requires intRootExtent[0] == ix.intExtent[0] && intRootExtent[1] == ix.intExtent[1]
+//@   let span = pixSpan(ix, level)
+//@   use pow2_split(ix.deepestLevel, level)
+//@   ensures[C03,C02] result0 == arr(ix.intExtent[0] + x*span, ix.intExtent[1] + y*span, ix.intExtent[0] + (x+1)*span, ix.intExtent[1] + (y+1)*span)
+//@   ensures[C03] result1 == arr(ix.intExtent[0] + x*span + span/2, ix.intExtent[1] + y*span + span/2)
+
+//@ lemma pow2_split(d Int, l Int)
+//@   prelude arith
+//@   requires 0 <= l && l <= d && d <= 32
+//@   ensures pow2(d) == pow2(l) * pow2(d - l) && pow2(d - l) >= 1 && pow2(l) >= 1
+
+//@ func (*PointIndex).InsertCoord
+//@   prelude arith
+//@   requires wfIndex(ix)
+//@   modifies ix.quadrants
+//@   ensures[C09] (result == nil) == (0 <= deepestX && deepestX < ix.deepestSize && 0 <= deepestY && deepestY < ix.deepestSize)
+//@   ensures[C09] result != nil ==> unchanged(ix.quadrants) && typeIs(result, "pointindex.OutsideGridError")
+//@   ensures wfIndex(ix)
+
+//@ func (*PointIndex).insertCoord
+//@   prelude arith
+//@   requires wfIndex(ix)
+//@   requires 0 <= deepestX && deepestX < ix.deepestSize && 0 <= deepestY && deepestY < ix.deepestSize
+//@   modifies ix.quadrants
+//@   loop l
+//@     invariant l <= ix.deepestLevel + 1 && !isNil(ix.quadrants)
+//@     decreases ix.deepestLevel + 1 - l
+//@   ensures wfIndex(ix)
+
+// C09: a point is accepted exactly when its integer representation lies in the half-open grid.
+// The float -> int conversion (x 1e10, truncated) is modelled over the reals; |ordinate| < 8e8 keeps it inside int64.
+//@ func (*PointIndex).InsertPoint
+//@   prelude arith
+//@   requires wfIndex(ix)
+//@   requires 0 - 800000000 < point[0] && point[0] < 800000000 && 0 - 800000000 < point[1] && point[1] < 800000000
+//@   let px = trunc(point[0] * 10000000000)
+//@   let py = trunc(point[1] * 10000000000)
+//@   modifies ix.quadrants
+//@   ensures[C09] (result == nil) == inGrid(ix, px, py)
+//@   ensures[C09] result != nil ==> unchanged(ix.quadrants) && typeIs(result, "pointindex.OutsideGridError")
+//@   ensures wfIndex(ix)
